@@ -298,7 +298,8 @@ def main():
                 gz = raw[:2] == b"\x1f\x8b"
                 text = gzip.decompress(raw) if gz else raw
                 D[d] = (text, raw if gz else None)
-                res = dump_doc(json.loads(text.decode("utf-8")), gz)
+                # the document field by field, and the uncompressed text byte for byte
+                res = dump_doc(json.loads(text.decode("utf-8")), gz) + " tx=H" + text.hex()
             elif op == "doc":
                 d, n = int(a[0]), int(a[1])
                 parsed = build_doc(a[2:])
@@ -306,9 +307,20 @@ def main():
                 text = json.dumps(parsed, ensure_ascii=(d % 2 == 0)).encode("utf-8")
                 D[d] = (text, None)
                 res = dump_doc(json.loads(text.decode("utf-8")), False)
+            elif op == "blob":
+                d = int(a[0])
+                assert a[1].startswith("h")
+                blob = bytes.fromhex(a[1][1:])
+                D[d] = (blob, None, "blob")
+                res = f"ok blob n={len(blob)}"
             elif op == "load":
                 r, d, via, k, m, lit, do_raise = int(a[0]), int(a[1]), a[2], a[3], a[4], int(a[5]), int(a[6])
-                text, gzb = D[d]
+                text, gzb = D[d][0], D[d][1]
+                is_blob = len(D[d]) == 3
+                if is_blob and via in ("gz", "fgz"):
+                    gzb = gzip.compress(text, compresslevel=1 + (r % 9))
+                elif is_blob:
+                    gzb = text            # never used compressed: raw bytes as they are
                 if gzb is None:
                     gzb = gzip.compress(text, compresslevel=1 + (r % 9))
                 kw = {}
@@ -327,8 +339,11 @@ def main():
                     if tmpd is None:
                         os.makedirs(os.path.join(VERIF, ".build", "tmp"), exist_ok=True)
                         tmpd = tempfile.mkdtemp(prefix="json_impl_", dir=os.path.join(VERIF, ".build", "tmp"))
-                    use_gz = via == "fgz" or (via == "path" and r % 2 == 1)
-                    name = f"d{d}_{r}" + (("_" + LIT) if lit else "") + (".sig.gz" if use_gz else ".sig")
+                    use_gz = via == "fgz" or (via == "path" and r % 2 == 1 and not is_blob)
+                    ext = ".sig.gz" if use_gz else ".sig"
+                    if is_blob:           # misleading extensions: the readers must go by content
+                        ext = [".sig", ".sig.gz", ".zip", ".json.gz", ".gz", ".bz2", ".sig.xz", ""][r % 8]
+                    name = f"d{d}_{r}" + (("_" + LIT) if lit else "") + ext
                     p = os.path.join(tmpd, name)
                     with open(p, "wb") as f:
                         f.write(gzb if use_gz else text)
